@@ -26,8 +26,8 @@ MANIFEST = {
                   'Exploration: held on the renderings observed.',
     'level_note': 'Trusts the renderer (self-checked against the standard library on the forms both support) and CPython datetime.',
 }
-PLAN = {'quick': {'shards': 2, 'timeout': 300, 'budget': 50},
-        'thorough': {'shards': 16, 'timeout': 1500, 'budget': 420}}
+PLAN = {'quick': {'shards': 2, 'timeout': 1800, 'budget': 900},
+        'thorough': {'shards': 16, 'timeout': 7200, 'budget': 2400}}
 N_CASES = {'quick': 12000, 'thorough': 120000}
 
 
